@@ -26,7 +26,7 @@ bool TECMP::operator==(const TECMP::Payload& lhs, const TECMP::Payload& rhs) noe
     const uint8_t* rhsRaw = rhs.getRawPayload();
 
     if (lhsRaw == rhsRaw)
-        return false;
+        return true;
 
     for (size_t i = 0; i < lhs.getLength(); ++i)
         if (lhsRaw[i] != rhsRaw[i])
